@@ -208,37 +208,57 @@ func runC05(c *Ctx) {
 
 	// ------------------------------------------------------------------------------------------------ R2
 	c.rule("C05-R2", "wake-up ordering: Post appends before writing the eventfd; the dispatcher drains the eventfd before taking the queue", 3)
+	// an instruction that queues a handler: the append store itself, or a call of an unexported helper that performs it on
+	// every path
+	var queues func(cur *ssa.Function, in ssa.Instruction, depth int) bool
+	queues = func(cur *ssa.Function, in ssa.Instruction, depth int) bool {
+		if st, ok := in.(*ssa.Store); ok {
+			fv, _ := fieldAddrOf(st.Addr)
+			return fv == posts && isAppendOf(st.Val)
+		}
+		if call, ok := in.(*ssa.Call); ok && depth > 0 {
+			if h := call.Call.StaticCallee(); isHelperOf(cur, h) {
+				okp, _ := mustPassAt(h.Blocks[0], 0, func(x ssa.Instruction) bool { return queues(h, x, depth-1) })
+				return okp
+			}
+		}
+		return false
+	}
 	for _, fn := range internalFuncs {
+		fn := fn
+		var queueing []ssa.Instruction
+		eachInstr(fn, func(in ssa.Instruction) {
+			if queues(fn, in, 2) {
+				queueing = append(queueing, in)
+			}
+		})
 		for _, w := range callsToFn(fn, efdWrite) {
 			// only the waker write that follows an append in the same function is Post's wake-up
-			hasAppend := false
-			for _, a := range storesTo(fn, posts) {
-				if isAppendOf(a.Val) {
-					hasAppend = true
-				}
-			}
+			hasAppend := len(queueing) > 0
 			if !hasAppend {
 				if fn.Name() == "Post" {
 					c.bad(fn, "append", fn.Pos(), "Post no longer appends the handler to the queue")
 				}
 				continue
 			}
-			reach := reachableAvoiding(w, func(in ssa.Instruction) bool {
-				st, ok := in.(*ssa.Store)
-				if !ok {
-					return false
-				}
-				fv, _ := fieldAddrOf(st.Addr)
-				return fv == posts && isAppendOf(st.Val)
-			})
+			reach := reachableAvoiding(w, func(in ssa.Instruction) bool { return queues(fn, in, 2) })
 			c.check(!reach, fn, "eventfd write", w.Pos(), "the handler is queued before the loop is woken", "the eventfd is written on a path on which the handler has not been appended yet: the loop can wake up, find nothing and sleep again (lost wake-up)")
 		}
 		// every path that queued a handler wakes the loop, unless it is skipped under a flag that the dispatcher
 		// re-arms before it takes the queue (wake-up coalescing done right)
-		for _, a := range storesTo(fn, posts) {
-			if !isAppendOf(a.Val) {
-				continue
+		// (a helper that only queues is judged at its call sites)
+		if len(queueing) > 0 && len(callsToFn(fn, efdWrite)) == 0 && allCallersSatisfy(p, fn, 1, func(caller *ssa.Function) bool {
+			for _, cs := range callsToFn(caller, fn) {
+				if !queues(caller, cs.(ssa.Instruction), 2) {
+					return false
+				}
 			}
+			return true
+		}) {
+			queueing = nil
+		}
+		for _, qi := range queueing {
+			a := struct{ Instr ssa.Instruction }{qi}
 			paths, overflow := enumPaths(fn)
 			if overflow {
 				c.unproven(fn, "wake-up", a.Instr.Pos(), "too many paths")
